@@ -52,7 +52,7 @@ PROP = Property(
 FIXTURE_SPEC = {
     'udparsers': {'b1000': {'kind': 'input'}, 'babcd': {'kind': 'input'}, 'k1000': {'kind': 'input'},
                   'o1000': {'kind': 'input'}},
-    'srcparsers': {'bsrc': {'kind': 'input'}, 'ksrc': {'kind': 'input'}, 'o8d00': {'kind': 'input'}},
+    'srcparsers': {'bsrc': {'kind': 'input'}, 'ksrc': {'kind': 'input'}, 'o2600': {'kind': 'input'}},
     'calloutparsers': {'bcallouts': {'kind': 'input'}, 'kcallouts': {'kind': 'input'}},
 }
 
@@ -248,12 +248,17 @@ class FixtureEnv:
 
 @st.composite
 def pool_pel(draw):
-    creator = draw(st.sampled_from([ord('O'), ord('O'), ord('B'), ord('B'), ord('K'), ord('M'), ord('H')]))
+    creator = draw(st.sampled_from([ord('O'), ord('O'), ord('O'), ord('B'), ord('B'), ord('K'), ord('M'), ord('H')]))
     kind = draw(st.sampled_from(['rich', 'rich', 'rich', 'damaged', 'plugin-heavy']))
     secs = []
     if kind == 'plugin-heavy' or draw(st.booleans()):
-        code = draw(st.sampled_from(['BD8D2600', 'BD8D2601', 'BD8D2602', '11002600', 'BC8A8A01', 'B7001234',
-                                     'BD00E510']))
+        if creator == ord('O'):
+            # BMC PELs: ordinary and hostboot (BC) codes that share the component byte, with and without a parser
+            code = draw(st.sampled_from(['BD8D2600', 'BC8A2601', 'BD8DE510', 'BC8AE510', 'BD8D2601', '11002600',
+                                         'BD8D7700', 'BC8A7701']))
+        else:
+            code = draw(st.sampled_from(['BD8D2600', 'BD8D2601', 'BD8D2602', '11002600', 'BC8A8A01', 'B7001234',
+                                         'BD00E510', 'BC8AE510']))
         cl = None
         if draw(st.booleans()):
             cs = []
